@@ -300,7 +300,7 @@ impl Engine for DirectiveEngine {
         m
     }
     fn rule(&self, _p: &str) -> String {
-        "per run: <=8 directives from the documented grammar (shared target prefixes, duplicates and conflicts in any order, bare level / bare target, level names in any case or as digits, span names, field value matchers for int/bool) and a well-nested enter/exit/record history over named spans with typed fields, pool spans and pool events on 1-2 threads, executed under four replica collectors (Targets, EnvFilter, EnvFilter re-parsed from Display, EnvFilter as per-layer filter); non-trivial = at least one emission enabled only by a span-scoped directive and one suppressed after the span was exited, or (static sets) at least one emission decided by a longest-prefix tie-break; distinct = distinct plan digest".into()
+        "per run: <=8 directives from the documented grammar (shared target prefixes, duplicates and conflicts in any order, bare level / bare target, level names in any case or as digits, span names, field value matchers for int/bool) and a well-nested enter/exit/record history over named spans with typed fields, pool spans and pool events on 1-2 threads, executed under four replica collectors (Targets, EnvFilter, EnvFilter re-parsed from Display, EnvFilter as per-layer filter); a quarter of the runs with span-scoped directives instead race two threads (each with its own spans) on one EnvFilter under seeded schedules, contending its callsite/span matcher tables and first hits of shared callsites; non-trivial = at least one emission enabled only by a span-scoped directive and one suppressed after the span was exited, or (static sets) at least one emission decided by a longest-prefix tie-break; distinct = distinct plan digest".into()
     }
     fn components(&self) -> Value {
         json!({"real": ["tracing_subscriber::filter::Targets (FromStr, would_enable, Subscribe)", "EnvFilter (Builder::parse, Display, Subscribe and Filter impls, by_cs/by_id/scope)", "Registry, Filtered", "tracing macros"], "stub": ["recording layer"]})
@@ -352,6 +352,72 @@ impl Engine for DirectiveEngine {
                 _ => json!({"t": t, "op": "event", "site": rng.below(20)}),
             });
         }
+        let (dirs, nthreads, steps) = if g.mode == "probe:F17" && rng.chance(1, 2) {
+            // structured variant of the trigger: a matching outer span stays entered while an inner span starts to
+            // match (a value recorded while it is entered) and is exited; the outer span's raise must survive that
+            let k = rng.below(3) as i64;
+            let mut dirs = vec![
+                json!({"target": Value::Null, "span": "alpha", "fields": [], "level": rng.range(4, 5), "spell": rng.below(8)}),
+                json!({"target": Value::Null, "span": "beta", "fields": [["y", k]], "level": rng.range(3, 5), "spell": rng.below(8)}),
+            ];
+            for _ in 0..rng.below(3) {
+                dirs.push(gen_directive(&mut rng, false));
+            }
+            let mut st = vec![
+                json!({"t": 0, "op": "fspan", "slot": 0, "fsite": *rng.pick(&[0u64, 2, 4]), "x": rng.below(3) as i64, "flag": rng.chance(1, 2)}),
+                json!({"t": 0, "op": "enter", "slot": 0}),
+                json!({"t": 0, "op": "fspan", "slot": 1, "fsite": *rng.pick(&[1u64, 3, 5]), "x": rng.below(3) as i64, "flag": rng.chance(1, 2)}),
+                json!({"t": 0, "op": "enter", "slot": 1}),
+                json!({"t": 0, "op": "record_y", "slot": 1, "y": if rng.chance(3, 4) { k } else { (k + 1) % 3 }}),
+            ];
+            for _ in 0..rng.below(2) {
+                st.push(json!({"t": 0, "op": "event", "site": rng.below(20)}));
+            }
+            st.push(json!({"t": 0, "op": "exit", "slot": 1}));
+            for _ in 0..rng.range(1, 4) {
+                st.push(json!({"t": 0, "op": "event", "site": rng.below(20)}));
+            }
+            st.push(json!({"t": 0, "op": "exit", "slot": 0}));
+            st.push(json!({"t": 0, "op": "event", "site": rng.below(20)}));
+            (dirs, 1, st)
+        } else {
+            (dirs, nthreads, steps)
+        };
+        // race variant (must-hold only): two threads, each with its own slots, under seeded schedules
+        if g.mode == "must" && dirs.iter().any(is_span_scoped) && rng.chance(1, 4) {
+            let mut st = vec![];
+            let mut stack: Vec<Vec<u64>> = vec![vec![]; 2];
+            for _ in 0..rng.range(6, 16) {
+                let t = rng.below(2);
+                let own: Vec<u64> = (0..NSLOTS as u64).filter(|s| s % 2 == t).collect();
+                let slot = *rng.pick(&own);
+                st.push(match rng.below(100) {
+                    0..=29 => json!({"t": t, "op": "fspan", "slot": slot, "fsite": rng.below(fsites::N as u64), "x": rng.below(3) as i64, "flag": rng.chance(1, 2)}),
+                    30..=49 => {
+                        if stack[t as usize].contains(&slot) {
+                            json!({"t": t, "op": "event", "site": rng.below(20)})
+                        } else {
+                            stack[t as usize].push(slot);
+                            json!({"t": t, "op": "enter", "slot": slot})
+                        }
+                    }
+                    50..=61 => match stack[t as usize].pop() {
+                        Some(sl) => json!({"t": t, "op": "exit", "slot": sl}),
+                        None => json!({"t": t, "op": "event", "site": rng.below(20)}),
+                    },
+                    62..=69 => {
+                        if stack[t as usize].contains(&slot) {
+                            json!({"t": t, "op": "event", "site": rng.below(20)})
+                        } else {
+                            json!({"t": t, "op": "record_y", "slot": slot, "y": rng.below(3) as i64})
+                        }
+                    }
+                    _ => json!({"t": t, "op": "event", "site": rng.below(20)}),
+                });
+            }
+            let sched = Sched::swarm(&mut rng, 400);
+            return json!({"engine": "directive", "prop": g.prop, "mode": g.mode, "cfg": {"dirs": dirs, "threads": 2}, "steps": st, "sched": serde_json::to_value(&sched).unwrap()});
+        }
         let sched = Sched::op_order(rng.next_u64());
         json!({"engine": "directive", "prop": g.prop, "mode": g.mode, "cfg": {"dirs": dirs, "threads": nthreads}, "steps": steps, "sched": serde_json::to_value(&sched).unwrap()})
     }
@@ -377,6 +443,7 @@ impl Engine for DirectiveEngine {
         let nsteps = steps.len();
         // while F18 is open, must-hold runs compare Targets only on strings without span/field syntax
         let with_targets = plan["mode"] == "probe:F18" || !finding_open("F18") || !dirs.iter().any(is_span_scoped);
+        let sync = sched.sync;
         let body = move || {
             let reps = match build_replicas(&text2, with_targets) {
                 Ok(r) => r,
@@ -389,6 +456,45 @@ impl Engine for DirectiveEngine {
             let indexed: Vec<(usize, usize, Value)> = steps.iter().enumerate().map(|(gi, s)| (gi, (s["t"].as_u64().unwrap_or(0) as usize) % nthreads, s.clone())).collect();
             TURN.store(0, Ordering::SeqCst);
             let all_slots: std::sync::Arc<Vec<Mutex<Vec<Option<SlotE>>>>> = std::sync::Arc::new((0..4).map(|_| Mutex::new((0..NSLOTS).map(|_| None).collect())).collect());
+            if sync {
+                // race variant: the EnvFilter replica alone; every thread owns its slots and spans, so the model's
+                // per-thread reading of the history holds under every interleaving; the schedule decides how the
+                // filter's shared tables (callsite matchers, span matchers, interest cache) are contended
+                let rep = match &reps[1] {
+                    Some(r) => r.dispatch.clone(),
+                    None => return,
+                };
+                let race_body = {
+                    let all_slots = all_slots.clone();
+                    let rep = rep.clone();
+                    move |t: usize, mine: Vec<(usize, Value)>| {
+                        let _g = dispatch::set_default(&rep);
+                        let mut entered = vec![];
+                        for (gi, s) in &mine {
+                            detsim::op_boundary("op");
+                            exec_step(1, *gi, t, s, &all_slots[1], &mut entered, &None);
+                        }
+                        while let Some((u, id, d)) = entered.pop() {
+                            d.exit(&id);
+                            ENTERED_ANY.lock().unwrap().retain(|x| *x != (1, u));
+                        }
+                    }
+                };
+                let mut tids = vec![];
+                for t in 1..nthreads {
+                    let mine: Vec<(usize, Value)> = indexed.iter().filter(|x| x.1 == t).map(|x| (x.0, x.2.clone())).collect();
+                    let rb = race_body.clone();
+                    tids.push(detsim::spawn(&format!("t{t}"), move || rb(t, mine)));
+                }
+                let mine: Vec<(usize, Value)> = indexed.iter().filter(|x| x.1 == 0).map(|x| (x.0, x.2.clone())).collect();
+                race_body(0, mine);
+                for id in tids {
+                    detsim::join(id);
+                }
+                let taken: Vec<Option<SlotE>> = all_slots[1].lock().unwrap().drain(..).collect();
+                dispatch::with_default(&rep, || drop(taken));
+                return;
+            }
             let run = {
                 let reps = reps.clone();
                 let all_slots = all_slots.clone();
